@@ -36,6 +36,8 @@ func execFile(path string, stmts []string) error {
 }
 
 func checkCLI(c CLICase) (string, error) {
+	model.SettleShortFKs(&c.A, &c.B)
+	model.SettleShortFKs(&c.B, &c.A)
 	sb, err := cli.NewSandbox()
 	if err != nil {
 		return "", fmt.Errorf("harness: %v", err)
